@@ -4,7 +4,7 @@ Require Extraction.
 Require Import ExtrOcamlBasic.
 From Coq Require Import List NArith.
 From FT Require Import Model.Base Model.Codec Model.Local Model.Records Model.Spsc Model.Collector
-     Model.System Model.Jaeger Oracles.OC12 Oracles.OJaeger Oracles.OTime.
+     Model.System Model.Jaeger Oracles.OC12 Oracles.OJaeger Oracles.OTime Oracles.OSys.
 Extraction Language OCaml.
 Extraction "model.ml"
   N.add N.mul N.sub N.eqb N.ltb N.leb N.of_nat N.to_nat N.compare
@@ -13,4 +13,5 @@ Extraction "model.ml"
   P_C12 valid_tp
   sys_init step run to_span_records
   report_datagrams encode_records P_C19_jaeger P_C20
-  P_C18 order_ok dur_ok wall_ok.
+  P_C18 order_ok dur_ok wall_ok
+  oracle.
